@@ -164,3 +164,35 @@ package bytecode
 //@   loop 1 invariant fresh(branches) && len(branches) == len(i.Branches) && i.Branches == old(i.Branches) && rangeindex < len(i.Branches)
 //@   loop 1 invariant forall k :: { branches[k] } 0 <= k && k <= rangeindex ==> branches[k] == i.Branches[k] + offset
 //@   loop 1 invariant forall k :: { i.Branches[k] } 0 <= k && k < len(i.Branches) ==> i.Branches[k] == old(i.Branches[k])
+
+// shiftRel(x, y, d): y is instruction x relocated by d (every absolute pc field moved).
+//@ pred shiftRel(x SearchInstruction, y SearchInstruction, d Int) :=
+//@    ((x is MatchLiteral || x is MatchCharClass || x is MatchVariable || x is MatchRange || x is FailNotIn || x is EndNotIn || x is StartVarDec || x is EndVarDec || x is EndSubroutine) ==> y == x)
+//@    && (x is CallSubroutine ==> y == box(CallSubroutine, mk(CallSubroutine, (x as CallSubroutine).Name, (x as CallSubroutine).ToPC + d)))
+//@    && (x is Jump ==> y == box(Jump, mk(Jump, (x as Jump).NewProgramCounter + d)))
+//@    && (x is StartNotIn ==> y == box(StartNotIn, mk(StartNotIn, (x as StartNotIn).NextCheckpointPC + d)))
+//@    && (x is StartLoop ==> y == box(StartLoop, mk(StartLoop, (x as StartLoop).Id, (x as StartLoop).MinLoops, (x as StartLoop).MaxLoops, (x as StartLoop).Fewest, (x as StartLoop).ExitLoop + d, (x as StartLoop).Name)))
+//@    && (x is StopLoop ==> y == box(StopLoop, mk(StopLoop, (x as StopLoop).Id, (x as StopLoop).MinLoops, (x as StopLoop).MaxLoops, (x as StopLoop).Fewest, (x as StopLoop).StartLoop + d, (x as StopLoop).Name)))
+//@    && (x is StartSubroutine ==> y == box(StartSubroutine, mk(StartSubroutine, (x as StartSubroutine).Id + d, (x as StartSubroutine).Name, (x as StartSubroutine).EndOffset + d)))
+//@    && (x is Branch ==> y is Branch && len((y as Branch).Branches) == len((x as Branch).Branches) && (forall j :: { (y as Branch).Branches[j] } 0 <= j && j < len((x as Branch).Branches) ==> (y as Branch).Branches[j] == (x as Branch).Branches[j] + d))
+
+//@ func generateVariable [C13 C01]
+//@   requires l != nil && state != nil && state.variables != nil && state.globalSubroutines != nil
+//@   presumes forall k :: { state.globalSubroutines[l.Name].search[k] } 0 <= k && k < len(state.globalSubroutines[l.Name].search) ==> state.globalSubroutines[l.Name].search[k] != nil
+//@   presumes allocated(state.globalSubroutines[l.Name].search) && (forall k :: { state.globalSubroutines[l.Name].search[k] } 0 <= k && k < len(state.globalSubroutines[l.Name].search) && (state.globalSubroutines[l.Name].search[k] is Branch) ==> allocated((state.globalSubroutines[l.Name].search[k] as Branch).Branches))
+//@   let known := has(state.variables, l.Name)
+//@   let val := state.variables[l.Name]
+//@   let glob := has(state.globalSubroutines, l.Name)
+//@   let pat := state.globalSubroutines[l.Name]
+//@   let n := len(pat.search)
+//@   modifies entries(state.variables)
+//@   ensures undefined: !known && !glob ==> result.1 != nil
+//@   ensures capture: known && val == -1 ==> result.1 == nil && len(result.0) == 1 && result.0[0] == box(MatchVariable, mk(MatchVariable, l.Name))
+//@   ensures call: known && val != -1 ==> result.1 == nil && len(result.0) == 1 && result.0[0] == box(CallSubroutine, mk(CallSubroutine, l.Name, val))
+//@   ensures inline: !known && glob ==> result.1 == nil && len(result.0) == n + 2 && result.0[0] == box(StartSubroutine, mk(StartSubroutine, offset, l.Name, offset + 1 + n)) && result.0[n + 1] == box(EndSubroutine, mk(EndSubroutine, l.Name, pat.validate))
+//@   ensures relocated: !known && glob ==> forall k :: { result.0[k + 1] } 0 <= k && k < n ==> shiftRel(pat.search[k], result.0[k + 1], offset + 1)
+//@   ensures registered: !known && glob ==> has(state.variables, l.Name) && state.variables[l.Name] == offset
+//@   ensures stored: forall k :: { pat.search[k] } 0 <= k && k < n ==> pat.search[k] == old(pat.search[k])
+//@   loop 1 invariant fresh(bodyinsts) && len(bodyinsts) == rangeindex + 1 && rangeindex + 1 <= n && loffset == offset + 1 + rangeindex + 1 && has(state.variables, l.Name) && state.variables[l.Name] == offset
+//@   loop 1 invariant forall k :: { bodyinsts[k] } 0 <= k && k <= rangeindex ==> shiftRel(pat.search[k], bodyinsts[k], offset + 1)
+//@   loop 1 invariant forall k :: { pat.search[k] } 0 <= k && k < n ==> pat.search[k] == old(pat.search[k])
